@@ -253,8 +253,8 @@ def segmentLoop (version : Int) : (fuel : Nat) → Buffer → Array Segment → 
             if version = 4 ∧ data.isEmpty then segmentLoop version fuel buf acc
             else segmentLoop version fuel buf (acc.push { mode, data })
 
-/-- how many syndromes the decoder asks for: the pinned source passes `MaxError` -/
-def RS_SYNDROMES (cap : Gen.GCap) : Int := (cap.blocks.head?.map (·.maxError)).getD 0
+/-- how many syndromes the decoder asks for: the number of error correction codewords -/
+def RS_SYNDROMES (cap : Gen.GCap) : Int := cap.correction
 
 /-- Go: `DecodeBitmap`; also returns the caller's bitmap as it is after the call -/
 def decodeBitmapFull (img : Image) : Out (QRCode × Image) := do
